@@ -11,7 +11,7 @@
 (*           by the set of results the contract allows                     *)
 (* The library comes from the cfg.                                         *)
 (***************************************************************************)
-EXTENDS GraphImpl, Json, Lib_core, Lib_ver
+EXTENDS GraphImpl, Json, Lib_core, Lib_ver, Lib_shape
 
 CONSTANTS MaxDepth,   \* bound on the number of operations of a history (state constraint)
           FullEvery   \* every FullEvery-th state (by a cheap state digest) carries the rejected candidates
@@ -58,13 +58,15 @@ ReplayLine ==
       cands == Candidates(st)
       \* creating operations are only tried where the bounded pool has room for the result
       tried == {o \in cands : Creates(st, o) => HasRoom(st)}
-      oks == {o \in tried : Apply(st, o).allowed = {"ok"}}
+      \* the contract's verdict, evaluated once per candidate
+      al == [o \in tried |-> Apply(st, o).allowed]
+      oks == {o \in tried : al[o] = {"ok"}}
       errs == tried \ oks
-      tags == {Apply(st, o).allowed : o \in errs}
+      tags == {al[o] : o \in errs}
   IN ToJson([hist |-> HistJson, state |-> StateJson(g),
              ok |-> {OkJson(st, o) : o \in oks},
              err |-> IF IsFull
-                     THEN {[a |-> t, ops |-> {OpSeq(o) : o \in {x \in errs : Apply(st, x).allowed = t}}] : t \in tags}
+                     THEN {[a |-> t, ops |-> {OpSeq(o) : o \in {x \in errs : al[x] = t}}] : t \in tags}
                      ELSE {}])
 
 EmitReplay == DepthBound => PrintT(<<"REPLAY", ReplayLine>>)
